@@ -247,6 +247,8 @@ def main(argv):
                 "pacing / stall x close / close+term / term / handle drop+term x tcp / ipc / inproc x runtime threads {1,2,4}; "
                 "non-trivial = script with an observation per op / scenario with at least one accepted message; distinct by case JSON")
     C.proof_stage(res, PROP, ["theories/Corr/C15Corr.vo"])
+    from . import optlib
+    optlib.options_stage(res, PROP, [17], n_quick=100, theorems_note='C15_linger_option_semantics, C15_linger_option_get_after_set, C15_linger_option_zero_prompt, C15_linger_option_infinite_waits')
     rng = random.Random(seed)
     ncoord = 160 if tier == "quick" else 1500
     cases = gen_coord(rng, ncoord) + gen_linger(rng, tier)
